@@ -110,6 +110,103 @@ func closedForms(r *vlib.Run) {
 		c.Nontrivial(fmt.Sprint("lambert", wit))
 	})
 
+	// the matte plane under several point lights with a small ball hovering above it: every visible
+	// point of the plane receives exactly the lights whose segment to it misses the ball, whatever
+	// the order of the lights in the list (pixels that look at the ball, or whose shadow test
+	// passes within 3% of the ball's radius of its surface, are not decided)
+	r.Section("closed.shadowed", r.N(60, 2400), vlib.SectionOpts{Sequential: true}, func(c *vlib.Case) {
+		rng := c.Rng
+		src := model3d.XYZ(rng.NormFloat64(), rng.NormFloat64(), 4+rng.Float64()*3)
+		dst := model3d.XYZ(rng.NormFloat64()*0.3, rng.NormFloat64()*0.3, 0)
+		cam := render3d.NewCameraAt(src, dst, 0.4+rng.Float64()*0.4)
+		diffuse := render3d.Color{X: 0.1 + 0.8*rng.Float64(), Y: 0.1 + 0.8*rng.Float64(), Z: 0.1 + 0.8*rng.Float64()}
+		plane := &render3d.ColliderObject{Collider: model3d.NewRect(model3d.XYZ(-100, -100, -1), model3d.XYZ(100, 100, 0)),
+			Material: &render3d.LambertMaterial{DiffuseColor: diffuse}}
+		ball := &model3d.Sphere{Center: model3d.XYZ(rng.NormFloat64()*0.4, rng.NormFloat64()*0.4, 0.6+rng.Float64()), Radius: 0.2 + 0.3*rng.Float64()}
+		ballObj := &render3d.ColliderObject{Collider: ball, Material: &render3d.LambertMaterial{DiffuseColor: render3d.NewColor(0.5)}}
+		nl := 2 + rng.Intn(3)
+		var lights []*render3d.PointLight
+		for i := 0; i < nl; i++ {
+			lights = append(lights, &render3d.PointLight{Origin: model3d.XYZ(rng.NormFloat64()*3, rng.NormFloat64()*3, 2.5+rng.Float64()*4),
+				Color: render3d.Color{X: 0.5 + rng.Float64(), Y: 0.5 + rng.Float64(), Z: 0.5 + rng.Float64()}, QuadDropoff: rng.Intn(2) == 0})
+		}
+		w, h := 6+rng.Intn(14), 6+rng.Intn(14)
+		ph := newPinhole(cam, w, h)
+		distToSeg := func(a, b model3d.Coord3D) float64 {
+			ab := b.Sub(a)
+			t := math.Max(0, math.Min(1, ball.Center.Sub(a).Dot(ab)/ab.Dot(ab)))
+			return a.Add(ab.Scale(t)).Dist(ball.Center)
+		}
+		want := make([]render3d.Color, w*h)
+		shadowedSome := make([]bool, w*h)
+		for y := 0; y < h; y++ {
+			for x := 0; x < w; x++ {
+				idx := y*w + x
+				d := ph.x.Scale((float64(x) - ph.cx) / ph.cx).Add(ph.y.Scale((float64(y) - ph.cy) / ph.cy)).Add(ph.z)
+				want[idx] = render3d.Color{X: math.NaN()}
+				if d.Z >= -1e-6 {
+					continue
+				}
+				t := -src.Z / d.Z
+				p := src.Add(d.Scale(t))
+				if math.Abs(p.X) > 99 || math.Abs(p.Y) > 99 || distToSeg(src, p) < ball.Radius*1.03 {
+					continue
+				}
+				var sum render3d.Color
+				decided := true
+				for _, l := range lights {
+					dl := distToSeg(p, l.Origin)
+					if math.Abs(dl-ball.Radius) < 0.03*ball.Radius {
+						decided = false
+						break
+					}
+					if dl < ball.Radius {
+						shadowedSome[idx] = true
+						continue
+					}
+					toLight := l.Origin.Sub(p)
+					dist := toLight.Norm()
+					lc := l.Color
+					if l.QuadDropoff {
+						lc = lc.Scale(1 / (dist * dist))
+					}
+					sum = sum.Add(lc.Mul(diffuse).Scale(math.Max(0, toLight.Z/dist)))
+				}
+				if decided {
+					want[idx] = sum
+				}
+			}
+		}
+		scene := render3d.JoinedObject{plane, ballObj}
+		wit := map[string]interface{}{"camera": fmt.Sprint(src, dst, cam.FieldOfView), "ball": fmt.Sprint(*ball), "diffuse": fmt.Sprint(diffuse), "w": w, "h": h}
+		for rep := 0; rep < 2; rep++ {
+			order := rng.Perm(nl)
+			ls := make([]*render3d.PointLight, nl)
+			var desc []string
+			for i, k := range order {
+				ls[i] = lights[k]
+				desc = append(desc, fmt.Sprint(*lights[k]))
+			}
+			wit["lights_in_order"] = desc
+			img := render3d.NewImage(w, h)
+			(&render3d.RecursiveRayTracer{Camera: cam, Lights: ls, MaxDepth: 0, NumSamples: 1 + rng.Intn(3)}).Render(img, scene)
+			for idx := range want {
+				if math.IsNaN(want[idx].X) {
+					continue
+				}
+				c.Count("closed.shadowed_plane_pixels", 1)
+				if shadowedSome[idx] {
+					c.Count("closed.shadowed_plane_pixels_in_some_shadow", 1)
+				}
+				if !relClose(img.Data[idx], want[idx], 1e-9) && img.Data[idx].Dist(want[idx]) > 1e-12 {
+					c.Violation("render3d.RecursiveRayTracer.Render/lit-matte-plane-with-occluder", fmt.Sprintf("pixel %d = %v, closed form %v (lights whose segment to the point misses the ball)", idx, img.Data[idx], want[idx]), wit)
+					return
+				}
+			}
+		}
+		c.Nontrivial(fmt.Sprint("shadowed", wit))
+	})
+
 	// a closed matte room with a spherical lamp: much of what the camera sees has bounced between
 	// the walls. Three estimators that integrate exactly the light paths of at most d+1 vertices
 	// (lamp included) - the recursive tracer with MaxDepth d, the bidirectional tracer with eye
